@@ -33,18 +33,15 @@ def unfold_contraction_generic_tuple(red_op, bin_op, reduced_vars, terms):
             continue
 
         # The rules below move v's reduced variables out over the sibling
-        # terms. A sibling may bind the same names (the same cons-hashed
-        # reduction can occur twice, as in x * x), so rename those first.
-        taken = frozenset().union(
-            *(frozenset(t.inputs) | frozenset(t.bound) for t in terms[:i] + terms[i + 1 :])
-        )
-        clash = {
-            name: interpreter.gensym(name.split("__BOUND")[0] + "__BOUND")
-            for name in v.bound
-            if name in taken
-        }
-        if clash:
-            v = reflect.interpret(Contraction, *v._alpha_convert(clash))
+        # terms and merge them with the outer ones. A sibling may bind the same
+        # names at any depth (the same cons-hashed reduction can occur twice,
+        # as in x * x), so give v fresh bound names first.
+        if v.bound and (len(terms) > 1 or reduced_vars):
+            fresh = {
+                name: interpreter.gensym(name.split("__BOUND")[0] + "__BOUND")
+                for name in v.bound
+            }
+            v = reflect.interpret(Contraction, *v._alpha_convert(fresh))
 
         if v.red_op is ops.null and (v.bin_op, bin_op) in DISTRIBUTIVE_OPS:
             # a * e * (b + c + d) -> (a * e * b) + (a * e * c) + (a * e * d)
